@@ -133,7 +133,9 @@ Print Assumptions model_follows_sources.
 (** 5. FULL (tie, round 2).  The allocator state has exactly the writers the model knows: every assignment to
     f_end_off and to maxref in hfile.c / hfiledd.c (regenerated census), HPfreediskblock releases nothing, Hdeldd /
     HTPdelete / Hnewref have the modelled skeletons, and every forward walk of HTIfind_dd covers ALL DD blocks
-    (outer loop over the block list, index reset before the next block). *)
+    (outer loop over the block list, index reset before the next block); Hnewref searches every candidate from the head
+    of the DD list; Hread extends the file over reserved space first; the raw stream macros are used only inside
+    HPseek / HP_write / HP_read (and the magic-number check), which keep the recorded position. *)
 Theorem allocator_state_writers :
   f_end_off_writers =
     ["Hwrite: file_rec->f_end_off=file_rec->f_cur_off";
@@ -153,14 +155,26 @@ Theorem allocator_state_writers :
      "HTIupdate_dd(file_rec,dd_ptr)"] /\
   Hnewref_skel =
     ["if(file_rec->maxref<((uint16)65535))"; "ret_value=++(file_rec->maxref);"; "else";
-     "for(i_ref=1;i_ref<=(uint32)((uint16)65535);i_ref++)"; "HTIfind_dd(file_rec,(uint16)0,ref,&dd_ptr,1)";
-     "ret_value=ref;"; "break;"] /\
+     "for(i_ref=1;i_ref<=(uint32)((uint16)65535);i_ref++)"; "dd_t*dd_ptr=((void*)0);";
+     "HTIfind_dd(file_rec,(uint16)0,ref,&dd_ptr,1)"; "ret_value=ref;"; "break;"] /\
+  raw_stream_users =
+    ["HIvalid_magic: HI_SEEK("; "HIvalid_magic: HI_READ("; "HP_read: HI_READ("; "HPseek: HI_SEEK("; "HP_write: HI_WRITE("] /\
+  Hread_skel =
+    ["if(file_rec->cache&&(file_rec->dirty&0x02))"; "HIextend_file(file_rec)"; "file_rec->dirty&=~0x02;";
+     "HPseek(file_rec,access_rec->posn+data_off)"; "HP_read(file_rec,data,length)"] /\
+  HP_write_skel =
+    ["if(file_rec->last_op==H4_OP_READ||file_rec->last_op==H4_OP_UNKNOWN)"; "file_rec->last_op=H4_OP_UNKNOWN;";
+     "HPseek(file_rec,file_rec->f_cur_off)"; "file_rec->f_cur_off+=bytes;"; "file_rec->last_op=H4_OP_WRITE;"] /\
+  HPseek_skel =
+    ["if(file_rec->f_cur_off!=offset||file_rec->last_op==H4_OP_UNKNOWN)"; "file_rec->f_cur_off=offset;";
+     "file_rec->last_op=H4_OP_SEEK;"] /\
   (List.length HTIfind_dd_skel = 47)%nat /\
   (List.length (filter (String.eqb "idx=0;") HTIfind_dd_skel) = 8)%nat /\
   (List.length (filter (String.eqb "for(;block;block=block->next)") HTIfind_dd_skel) = 6)%nat.
 Proof.
   split; [exact census_f_end_off|]. split; [exact census_maxref|]. split; [exact skel_HPfreediskblock|].
   split; [exact skel_Hdeldd|]. split; [exact skel_HTPdelete|]. split; [exact skel_Hnewref|].
+  split; [exact census_raw_stream|]. split; [exact skel_Hread|]. split; [exact skel_HP_write|]. split; [exact skel_HPseek|].
   rewrite skel_HTIfind_dd. repeat split; reflexivity.
 Qed.
 Print Assumptions allocator_state_writers.
